@@ -723,6 +723,12 @@ def _run(sc, S, obs):
         S.point_hooks.append(_make_injection(inj, obs))
     for rule in sc.get('rules', []):
         S.rules.append(_make_rule(rule))
+    if sc.get('sigint_disposition') == 'ign':
+        S.mainproc.handlers[sim.SIGINT] = sim.SIG_IGN      # the caller ignores SIGINT (a background job, nohup, …)
+    elif sc.get('sigint_disposition') == 'dfl':
+        S.mainproc.handlers[sim.SIGINT] = sim.SIG_DFL      # the caller has the OS default action installed
+    elif sc.get('sigint_disposition') == 'custom':
+        S.mainproc.handlers[sim.SIGINT] = _custom_sigint_handler
     pool = WorkerPool(pc.pop('n_jobs', 2), shared_objects=shared_obj, **pc)
     try:
         if isinstance(pool._cache, dict) and type(pool._cache) is dict:
@@ -1036,6 +1042,10 @@ def _run(sc, S, obs):
         obs['sigint_handler_after'] = repr(S.mainproc.handlers.get(sim.SIGINT))
         obs['tqdm_lock_same'] = std_tqdm.get_lock() is lock_before
         obs['procs_alive'] = sorted(p.name for p in S.procs.values() if p is not S.mainproc and not p.killed and p.main_st is not None and not p.main_st.done)
+
+
+def _custom_sigint_handler(signum, frame):
+    raise KeyboardInterrupt
 
 
 def _other_task(x):
